@@ -32,6 +32,12 @@ pub enum Delivery {
     /// for insert_order only (every other request treats it as Lazy): it is the one request whose
     /// failure the broker claims to handle (OrderFailure)
     InsertFails,
+    /// fault: the request is lost before it reaches the server and the client returns Err. Honoured for
+    /// tick only (the broker's check() tolerates a failed tick; every other request treats it as Lazy)
+    TickFails,
+    /// fault: the server executes the request, the response is lost and the client returns Err. Honoured
+    /// for tick and fetch_quotes (check() tolerates both); every other request treats it as Lazy
+    ResponseLost,
 }
 
 #[derive(Clone, Debug)]
@@ -44,8 +50,11 @@ pub enum Wire {
     Init { id: u64 },
     Info { bt: u64 },
     Rejected { what: &'static str, status: u16 },
-    /// an injected transport failure: the request never reached the server
+    /// an injected transport failure: the request never reached the server, or (fetch_quotes) its
+    /// response was lost; the client got Err
     Failed { what: &'static str },
+    /// the server ticked, the response was lost and the client got Err
+    TickLost { bt: u64, has_next: bool, trades: Vec<Trade>, admitted: Vec<Order> },
 }
 
 pub struct Shared {
@@ -63,6 +72,9 @@ pub struct Shared {
     pub dropped_unpolled: Cell<u64>,
     /// injected insert_order failures so far
     pub failed_inserts: Cell<u64>,
+    /// injected lost tick requests / lost tick or fetch_quotes responses so far
+    pub failed_ticks: Cell<u64>,
+    pub lost_responses: Cell<u64>,
 }
 
 impl Shared {
@@ -78,6 +90,8 @@ impl Shared {
             pending_polls: Cell::new(0),
             dropped_unpolled: Cell::new(0),
             failed_inserts: Cell::new(0),
+            failed_ticks: Cell::new(0),
+            lost_responses: Cell::new(0),
         })
     }
 
@@ -146,7 +160,7 @@ impl<T> SimFut<T> {
                 let e = f.effect.take().unwrap();
                 f.result = Some(e());
             }
-            Delivery::Lazy | Delivery::InsertFails => {}
+            Delivery::Lazy | Delivery::InsertFails | Delivery::TickFails | Delivery::ResponseLost => {}
             Delivery::LazyPending(k) => f.before = k,
             Delivery::EffectPending(k) => f.after = k,
         }
@@ -199,12 +213,32 @@ impl SimClient {
 impl UistClient for SimClient {
     fn tick(&mut self, backtest_id: BacktestId) -> impl Future<Output = Result<TickResponse>> {
         let sh = self.sh.clone();
-        SimFut::new(
+        self.sh.spend();
+        let mode = self.sh.next_mode();
+        if mode == Delivery::TickFails {
+            let sh2 = self.sh.clone();
+            return SimFut::with_mode(
+                self.sh.clone(),
+                Box::new(move || {
+                    sh2.failed_ticks.set(sh2.failed_ticks.get() + 1);
+                    sh2.wire.borrow_mut().push(Wire::Failed { what: "tick" });
+                    Err(anyhow!("injected fault: tick request lost"))
+                }),
+                Delivery::Lazy,
+            );
+        }
+        let lose_response = mode == Delivery::ResponseLost;
+        SimFut::with_mode(
             self.sh.clone(),
             Box::new(move || {
                 let before = sh.clock(backtest_id);
                 match sh.srv.tick(backtest_id) {
                     Ok(r) => {
+                        if lose_response {
+                            sh.lost_responses.set(sh.lost_responses.get() + 1);
+                            sh.wire.borrow_mut().push(Wire::TickLost { bt: backtest_id, has_next: r.has_next, trades: r.executed_trades.clone(), admitted: r.inserted_orders.clone() });
+                            return Err(anyhow!("injected fault: tick response lost"));
+                        }
                         sh.wire.borrow_mut().push(Wire::Tick {
                             bt: backtest_id,
                             has_next: r.has_next,
@@ -218,6 +252,7 @@ impl UistClient for SimClient {
                     Err(e) => Err(rej("tick", &sh, e)),
                 }
             }),
+            if lose_response { Delivery::Lazy } else { mode },
         )
     }
 
@@ -266,10 +301,18 @@ impl UistClient for SimClient {
 
     fn fetch_quotes(&mut self, backtest_id: BacktestId) -> impl Future<Output = Result<FetchQuotesResponse>> {
         let sh = self.sh.clone();
-        SimFut::new(
+        self.sh.spend();
+        let mode = self.sh.next_mode();
+        let lose_response = mode == Delivery::ResponseLost;
+        SimFut::with_mode(
             self.sh.clone(),
             Box::new(move || match sh.srv.fetch(backtest_id) {
                 Ok(r) => {
+                    if lose_response {
+                        sh.lost_responses.set(sh.lost_responses.get() + 1);
+                        sh.wire.borrow_mut().push(Wire::Failed { what: "fetch_quotes" });
+                        return Err(anyhow!("injected fault: fetch_quotes response lost"));
+                    }
                     let mut q: Vec<PenelopeQuote> = r.quotes.values().cloned().collect();
                     q.sort_by(|a, b| a.symbol.cmp(&b.symbol));
                     sh.wire.borrow_mut().push(Wire::Fetch { bt: backtest_id, quotes: q });
@@ -277,6 +320,7 @@ impl UistClient for SimClient {
                 }
                 Err(e) => Err(rej("fetch_quotes", &sh, e)),
             }),
+            if lose_response { Delivery::Lazy } else { mode },
         )
     }
 
